@@ -96,13 +96,15 @@ def order_families(tier: str) -> Dict[str, Dict[str, Any]]:
         "ord3": {"lens": (3, 4, 3), "gaps": gaps,
                  "hits": [("a", "b", "a"), ("ab", "c", "b"), ("b", "a", "c")], "rulesets": ORD_RULESETS,
                  "leads": [0, 3], "tails": [0, 6], "cuts": -2 if not wide else -1},
-        "ordchain2": {"lens": (3, 4), "gaps": [0, C1 - 1, C1, C2 - 1, C2, FAR], "hits": CHAIN_HITS2,
-                      "rulesets": ORD_CHAINS, "leads": [0, 3], "tails": [0, 6], "cuts": -2 if not wide else 0},
-        "ordchain3": {"lens": (3, 4, 3), "gaps": [0, C1 - 1, C2 - 1, FAR] if not wide else [0, C1 - 1, C1, C2 - 1, C2, FAR],
-                      "hits": CHAIN_HITS3, "rulesets": ORD_CHAINS, "leads": [0], "tails": [3],
-                      "cuts": -2},
-        "orddiamond": {"lens": (3, 4, 3), "gaps": [0, C1 - 1, C2 - 1, FAR], "hits": CHAIN_HITS3[:4],
-                       "rulesets": ORD_DIAMOND, "leads": [0], "tails": [3], "cuts": -2, "sel": "perm"},
+        "ordchain2": {"lens": (3, 4), "gaps": [0, C1 - 1, C2 - 1, FAR] if not wide else [0, C1 - 1, C1, C2 - 1, C2, FAR],
+                      "hits": CHAIN_HITS2, "rulesets": ORD_CHAINS, "leads": [0, 3], "tails": [0, 6],
+                      "cuts": -2 if not wide else 0},
+        "ordchain3": {"lens": (3, 4, 3), "gaps": [0, C2 - 1, FAR] if not wide else [0, C1 - 1, C1, C2 - 1, C2, FAR],
+                      "hits": CHAIN_HITS3[:4] if not wide else CHAIN_HITS3, "rulesets": ORD_CHAINS,
+                      "leads": [0], "tails": [3], "cuts": -2},
+        "orddiamond": {"lens": (3, 4, 3), "gaps": [0, C2 - 1, FAR] if not wide else [0, C1 - 1, C2 - 1, FAR],
+                       "hits": CHAIN_HITS3[:3] if not wide else CHAIN_HITS3[:4], "rulesets": ORD_DIAMOND,
+                       "leads": [0], "tails": [3], "cuts": -2, "sel": "perm"},
         "ord2": {"lens": (3, 4), "gaps": gaps + [C1 - 1, 14] if not wide else gaps + [C1 + 1, C2 + 1, 14],
                  "hits": [("a", "b"), ("ab", "c")],
                  "rulesets": ORD_RULESETS, "leads": [0, 3], "tails": [0, 6], "cuts": -1 if not wide else 0},
@@ -129,7 +131,7 @@ def ring_bases(fam: Dict[str, Any]) -> Iterator[Dict[str, Any]]:
 
 
 PARTS = {"rot-tiny2": 1, "rot-nbh3": 8, "rot-chain3": 8, "rot-pair3": 12, "rot-sup3": 10, "rot-ext3": 8, "rot-cond3": 10, "rot-chain4": 10,
-         "ord3": 10, "ord2": 2, "ordchain2": 2, "ordchain3": 6, "orddiamond": 6}
+         "ord3": 10, "ord2": 2, "ordchain2": 3, "ordchain3": 4, "orddiamond": 4}
 
 
 def shards(tier: str, seed: int) -> list:
@@ -185,6 +187,30 @@ def crash_label(sub: Dict[str, Any]) -> str:
     return "[crash:" + labelled.split("[", 1)[1] if "[" in labelled else ""
 
 
+def hybrid_part_over_origin(case: Dict[str, Any]) -> bool:
+    """ protoclusters that share an anchoring gene (they form one chemical-hybrid candidate), at least two
+        of them with a core that crosses the origin and at least one with a core that does not:
+        formation.py:_find_cross_origin_interleaved then collects only the origin-crossing members of the
+        hybrid, finds that this proper subset equals no existing candidate and adds it as an extra
+        INTERLEAVED candidate """
+    if not case["circ"]:
+        return False
+    geo = chk.Geometry(case)
+    length = case["L"]
+    members = []
+    for rule in case["rules"]:
+        anchors = chk.expected_anchors(case, rule, geo)
+        for group in chk.chains(anchors, rule["cut"], geo):
+            crosses = any(start + size > length for start, size in geo.spans(group))
+            members.append((set(group), crosses))
+    comps = model.components(list(range(len(members))), lambda i, j: bool(members[i][0] & members[j][0]))
+    for comp in comps:
+        crossing = sum(1 for i in comp if members[i][1])
+        if crossing >= 2 and crossing < len(comp):
+            return True
+    return False
+
+
 def compare_rotation(base: Dict[str, Any], base_obs: model.Observed, cut: int
                      ) -> List[Tuple[str, bool, str]]:
     """ the clauses of the rotation half of C07 for one rotation of one base record """
@@ -201,6 +227,8 @@ def compare_rotation(base: Dict[str, Any], base_obs: model.Observed, cut: int
     first, second = signature(base, base_obs), signature(turned, obs)
     for key, clause in ROT_CLAUSES.items():
         same = first[key] == second[key]
+        if key == "candidates" and not suffix and (hybrid_part_over_origin(base) or hybrid_part_over_origin(turned)):
+            clause += "[hybrid-part-over-origin]"
         out.append((clause + suffix, same,
                     "" if same else f"origin moved to base {cut}: {key} {first[key]} became {second[key]}"))
     return out
@@ -410,6 +438,17 @@ def _classifier(suffix: str) -> Any:
     return predicate
 
 
+def _hybrid_classifier(clause: str, case: Any) -> bool:
+    """ C07-F13 """
+    if clause != "rotation-same-candidate-clusters[hybrid-part-over-origin]" or not isinstance(case, dict):
+        return False
+    if case.get("kind") != "rotation":
+        return False
+    base = case["base"]
+    turned = chk.rotate_case(base, case["cut"])
+    return not pair_label(base, turned) and (hybrid_part_over_origin(base) or hybrid_part_over_origin(turned))
+
+
 def _crash_classifier(clause: str, case: Any) -> bool:
     """ C07-F10: one of the two compared rulesets lies in a crash class of C03 """
     if not clause.startswith("order-no-exception[crash:") or not isinstance(case, dict) or "base" not in case:
@@ -427,4 +466,5 @@ def _crash_classifier(clause: str, case: Any) -> bool:
 
 FINDING_CLASSES: Dict[str, Any] = {fid: _classifier(suffix) for fid, suffix in ROOTS.items()}
 FINDING_CLASSES["C07-F10"] = _crash_classifier
+FINDING_CLASSES["C07-F13"] = _hybrid_classifier
 # C07-F11 (candidate look-up key) was repaired in /repo: no input class any more, the witness is a regression test
